@@ -393,6 +393,14 @@ func (g *gen) genC39C93() {
 			emit(strings.Repeat(alpha, n/len(alpha)+1)[:n])
 		}
 	}
+	for _, n := range g.longLengths(13, 26) {
+		g.emit("c39 %s %d 0", hx(g.str(c39Alphabet, n)), g.intn(2))
+		g.emit("c39 %s 0 1", hx(g.str("ab", n/2)))
+	}
+	for _, n := range g.longLengths(9, 37) {
+		g.emit("c93 %s %d 0", hx(g.str(c39Alphabet, n)), g.intn(2))
+		g.emit("c93 %s 1 1", hx(g.str("ab", n/2)))
+	}
 	// exhaustive lengths 0..2 over ASCII 0..127 (contains the 43-character alphabet and '*')
 	emit("")
 	for a := 0; a < 128; a++ {
@@ -429,7 +437,32 @@ func (g *gen) genC39C93() {
 
 const codabarChars = "0123456789-$:/.+ABCD"
 
+// longLengths: content lengths at which a symbol of `per` modules per character (plus `extra` modules) crosses the
+// storage growth steps of the bit list (4096, 8192, 16384, 32768 bits; thorough: 65536, 98304) — one character below,
+// at, and above each. Multi-bit appends that straddle a re-allocation are the classic way to lose a partly filled word
+// (seeds s05, x06), and only symbols of that length execute them.
+func (g *gen) longLengths(per, extra int) []int {
+	bounds := []int{4096, 8192, 16384, 32768}
+	if g.thorough() {
+		bounds = append(bounds, 65536, 98304)
+	}
+	var out []int
+	for _, b := range bounds {
+		n := (b - extra) / per
+		for d := -2; d <= 2; d++ {
+			if n+d > 0 {
+				out = append(out, n+d)
+			}
+		}
+	}
+	return out
+}
+
 func (g *gen) genCodabar() {
+	for _, n := range g.longLengths(11, 22) {
+		g.emit("codabar %s", hx("A"+g.str("0123456789-$", n)+"B"))
+		g.emit("codabar %s", hx("C"+g.str("1", n)+"D"))
+	}
 	alpha := codabarChars + "!Ea"
 	maxLen := g.n(4, 5)
 	var rec func(prefix string)
@@ -463,6 +496,10 @@ func (g *gen) genCodabar() {
 }
 
 func (g *gen) genTof() {
+	for _, n := range g.longLengths(14, 10) {
+		g.emit("tof %s 0", hx(g.str(digits, n)))
+		g.emit("tof %s 1", hx(g.str(digits, 2*n)))
+	}
 	maxLen := g.n(5, 6)
 	var rec func(prefix string)
 	rec = func(prefix string) {
